@@ -27,7 +27,11 @@ class _BaseITML(MahalanobisMixin):
                     ' version 0.6.3 and will be removed in 0.7.0'
                     '', FutureWarning)
       tol = convergence_threshold
-    self.convergence_threshold = 'deprecated'  # Avoid errors
+      convergence_threshold = 'deprecated'
+    # the placeholder is stored as received: clone requires the stored
+    # parameter to be the object that was passed (an unpickled estimator
+    # carries an equal but distinct string)
+    self.convergence_threshold = convergence_threshold
     self.gamma = gamma
     self.max_iter = max_iter
     self.tol = tol
@@ -375,9 +379,11 @@ class ITML_Supervised(_BaseITML, TransformerMixin):
                     ' version 0.6.3 and will be removed in 0.7.0'
                     '', FutureWarning)
       n_constraints = num_constraints
+      num_constraints = 'deprecated'
     self.n_constraints = n_constraints
-    # Avoid test get_params from failing (all params passed sholud be set)
-    self.num_constraints = 'deprecated'
+    # Avoid test get_params from failing (all params passed sholud be set);
+    # stored as received, see _BaseITML
+    self.num_constraints = num_constraints
 
   def fit(self, X, y, bounds=None):
     """Create constraints from labels and learn the ITML model.
